@@ -1,7 +1,7 @@
 (** Property C19, what equivalence is FOR: two schemes that [is_equivalent_to] accepts give proportional Kemeny scores to every
     candidate against every dataset, hence order all candidates alike and have the same optimal consensuses.  This is what the
     guards of PickAPerm, Borda and BioConsert on incomplete data rely on when they accept "a multiple of" a scheme. *)
-From Corankco Require Import Prelude Scheme SchemeProof Rank KemenySpec CostTableProof.
+From Corankco Require Import Prelude Scheme SchemeProof Rank KemenySpec CostTable CostTableProof OptTheory.
 Local Open Scope Z_scope.
 
 Theorem kemeny_spec_proportional s s' a b D c :
@@ -33,4 +33,14 @@ Proof.
   destruct (equiv_spec_scores_proportional s1 s2 E) as (p & q & Hp & Hq & H).
   intros D c1 c2. pose proof (H D c1) as H1. pose proof (H D c2) as H2.
   split; split; intros L; nia.
+Qed.
+
+(** the optimal consensuses of a dataset are the same under two schemes the library calls equivalent *)
+Theorem equivalent_schemes_same_optima s1 s2 :
+  nonneg s1 -> nonneg s2 -> is_equivalent_to s1 s2 = true ->
+  forall D U c, is_optimal (cost_spec s1 D) U c <-> is_optimal (cost_spec s2 D) U c.
+Proof.
+  intros N1 N2 E D U c. unfold is_optimal. rewrite !score_cost_spec.
+  split; intros [W H]; (split; [exact W|]); intros c' W'; specialize (H c' W'); rewrite !score_cost_spec in *;
+    apply (equivalent_schemes_same_order s1 s2 N1 N2 E D c c'); exact H.
 Qed.
